@@ -85,14 +85,16 @@ func (s *metricSchemaStore) GetSchema(id metric.ID) (schema *metric.Schema, err 
 
 // genFieldID generates field id if field not exist.
 func (s *metricSchemaStore) genFieldID(id metric.ID, f field.Meta, limits *models.Limits) (fID field.ID, err error) {
-	schema, err := s.GetSchema(id)
-	if err != nil {
-		return 0, err
-	}
 	verifhook.Yield("index.schema.genFieldID.beforeLock")
 	s.lock.Lock()
 	defer s.lock.Unlock()
 
+	// look the schema up under the write lock: a schema read before taking the lock may have been
+	// created/replaced by another caller (or flushed out of memory) in between
+	schema, err := s.getSchemaLocked(id)
+	if err != nil {
+		return 0, err
+	}
 	if schema == nil {
 		// create new schema
 		schema = &metric.Schema{}
@@ -119,14 +121,16 @@ func (s *metricSchemaStore) genFieldID(id metric.ID, f field.Meta, limits *model
 func (s *metricSchemaStore) genTagKeyID(id metric.ID, tagKey []byte, limits *models.Limits,
 	createFn func() uint32,
 ) (tagKeyID tag.KeyID, err error) {
-	schema, err := s.GetSchema(id)
-	if err != nil {
-		return 0, err
-	}
 	verifhook.Yield("index.schema.genTagKeyID.beforeLock")
 	s.lock.Lock()
 	defer s.lock.Unlock()
 
+	// look the schema up under the write lock: a schema read before taking the lock may have been
+	// created/replaced by another caller (or flushed out of memory) in between
+	schema, err := s.getSchemaLocked(id)
+	if err != nil {
+		return 0, err
+	}
 	if schema == nil {
 		// create new schema
 		schema = &metric.Schema{}
@@ -149,6 +153,22 @@ func (s *metricSchemaStore) genTagKeyID(id metric.ID, tagKey []byte, limits *mod
 	}
 	schema.TagKeys = append(schema.TagKeys, tm)
 	return tm.ID, nil
+}
+
+// getSchemaLocked returns the schema a writer must extend: the one in the memory maps, else the
+// persisted one (read from the kv family directly: the LRU cache may hold an older version).
+// The caller holds s.lock.
+func (s *metricSchemaStore) getSchemaLocked(id metric.ID) (*metric.Schema, error) {
+	key := uint32(id)
+	if schema, ok := s.mutable.Get(key); ok && schema != nil {
+		return schema, nil
+	}
+	if s.immutable != nil {
+		if schema, ok := s.immutable.Get(key); ok && schema != nil {
+			return schema, nil
+		}
+	}
+	return s.getSchemaFromKV(id)
 }
 
 // getSchemaFromKV gets schema from kv store.
